@@ -43,6 +43,16 @@ Theorem c12_limits : forall has_pod dv rt,
 Proof. exact limit_spec. Qed.
 Print Assumptions c12_limits.
 
+(* the daemon's side of the cluster IPAM (crdv2.go multiIP): the addresses it answers with are bound to the pod in the Node
+   record — a valid entry with the pod's name and not another instance's uid, on an attached interface — and the interface
+   whose CIDR yields subnet and gateway is an attached one of the record *)
+Theorem c12_crd_answer_is_bound : forall es r4 r6 re,
+  crd_walk es 1 (None, None, None) = (r4, r6, re) ->
+  (forall a, r4 = Some a -> bound4 es a) /\ (forall a, r6 = Some a -> bound6 es a) /\
+  (forall j e, re = Some (j, e) -> In e es /\ ce_inuse e = true).
+Proof. exact crd_pick_is_bound. Qed.
+Print Assumptions c12_crd_answer_is_bound.
+
 Example c12_ex :
   default_for_netconf [{| n_if := 2; n_dr := false |}; {| n_if := 1; n_dr := false |}]
   = Some [{| n_if := 2; n_dr := false |}; {| n_if := 1; n_dr := true |}]
